@@ -680,3 +680,82 @@ Proof.
     rewrite firstn_all, HB, ER. cbn [Z.eqb negb]. exact Hfin.
 Qed.
 End Sound.
+
+(* ------------------------------------------------------------------ read-back of date and decimal cells *)
+Definition nosp (c : Z) : bool := negb (c =? 32).
+Lemma numc_allnosp s : allc numc s = true -> allc nosp s = true.
+Proof. apply allc_impl. intros c H. unfold nosp. destruct (c =? 32) eqn:E; [apply Z.eqb_eq in E; subst; discriminate|reflexivity]. Qed.
+
+Lemma lstrip_spaces_all n : lstrip (spaces n) = [].
+Proof. unfold lstrip. replace (spaces n) with (spaces n ++ []) by apply app_nil_r. rewrite lead_spaces_spaces. simpl. rewrite Nat.add_0_r, app_nil_r. apply skipn_all2. rewrite spaces_length. lia. Qed.
+Lemma lstrip_spaces_cons n c (t : str) : c <> 32 -> lstrip (spaces n ++ c :: t) = c :: t.
+Proof.
+  intros Hc. unfold lstrip. rewrite lead_spaces_spaces.
+  assert (lead_spaces (c :: t) = 0%nat) as ->.
+  { destruct c as [|p|p]; try reflexivity. do 6 (destruct p as [p|p|]; try reflexivity). congruence. }
+  rewrite Nat.add_0_r, skipn_app, spaces_length, Nat.sub_diag, skipn_all2 by (rewrite spaces_length; lia). reflexivity.
+Qed.
+Lemma lstrip_nosp n (s t : str) : allc nosp s = true -> s <> [] -> lstrip (spaces n ++ s ++ t) = s ++ t.
+Proof.
+  intros Hs Hne. destruct s as [|c s']; [congruence|]. simpl in Hs. apply andb_prop in Hs as [Hc _].
+  cbn [app]. apply lstrip_spaces_cons. intros ->. discriminate.
+Qed.
+Lemma rev_spaces n : rev (spaces n) = spaces n.
+Proof. unfold spaces. induction n; [reflexivity|]. simpl. rewrite IHn. clear. induction n; simpl; [reflexivity|]. rewrite <- IHn. reflexivity. Qed.
+Lemma allc_rev P (s : str) : allc P s = true -> allc P (rev s) = true.
+Proof. intros H. unfold allc. apply forallb_forall. intros c Hc. apply in_rev in Hc. eapply allc_in; eassumption. Qed.
+
+(* stripping a padded cell gives back the cell text (texts without spaces) *)
+Lemma strip_padded l r (s : str) : allc nosp s = true -> strip (spaces l ++ s ++ spaces r) = s.
+Proof.
+  intros Hs. unfold strip. destruct s as [|c s'] eqn:Es.
+  - cbn [app]. rewrite spaces_app, lstrip_spaces_all. reflexivity.
+  - rewrite <- Es in *. assert (Hne : s <> []) by (rewrite Es; discriminate).
+    rewrite (lstrip_nosp l s (spaces r) Hs Hne).
+    unfold rstrip. rewrite rev_app_distr, rev_spaces.
+    replace (spaces r ++ rev s) with (spaces r ++ rev s ++ []) by (rewrite app_nil_r; reflexivity).
+    rewrite lstrip_nosp; [rewrite app_nil_r; apply rev_involutive|apply allc_rev; exact Hs|].
+    intros E. apply (f_equal (@rev Z)) in E. rewrite rev_involutive in E. simpl in E. congruence.
+Qed.
+
+(* dates *)
+Lemma split_on_nochar c (a : str) : allc (fun x => negb (x =? c)) a = true -> split_on c a = [a].
+Proof.
+  induction a as [|x a IH]; intros H; [reflexivity|]. simpl in H. apply andb_prop in H as [H1 H2].
+  cbn [split_on]. apply negb_true_iff in H1. rewrite H1, (IH H2). reflexivity.
+Qed.
+Lemma split_on_app c (a b : str) : allc (fun x => negb (x =? c)) a = true -> split_on c (a ++ c :: b) = a :: split_on c b.
+Proof.
+  induction a as [|x a IH]; intros H.
+  - cbn [app split_on]. rewrite Z.eqb_refl. reflexivity.
+  - simpl in H. apply andb_prop in H as [H1 H2]. cbn [app split_on]. apply negb_true_iff in H1. rewrite H1, (IH H2). reflexivity.
+Qed.
+Lemma digits_nodash s : forallb is_digit s = true -> allc (fun x => negb (x =? 45)) s = true.
+Proof. apply allc_impl. intros c H. destruct (c =? 45) eqn:E; [apply Z.eqb_eq in E; subst; discriminate|reflexivity]. Qed.
+
+Lemma pnat_zeros k (s : str) : pnat (repeat 48 k ++ s) = pnat s.
+Proof. unfold pnat. induction k; [reflexivity|]. cbn [repeat app fold_left]. exact IHk. Qed.
+Lemma zpad_digits w n : 0 <= n -> forallb is_digit (zpad w n) = true.
+Proof. intros. unfold zpad. rewrite forallb_app, show_nat_digits by lia. rewrite andb_true_r. apply (allc_repeat is_digit). reflexivity. Qed.
+Lemma parse_nat_zpad w n : 0 <= n -> parse_nat (zpad w n) = Some n.
+Proof.
+  intros Hn. unfold parse_nat. pose proof (zpad_digits w n Hn) as Hd.
+  assert (Hne : zpad w n <> []).
+  { unfold zpad. pose proof (show_nat_nonempty n). destruct (repeat 48 _); simpl; [assumption|discriminate]. }
+  destruct (zpad w n) eqn:E; [congruence|]. rewrite <- E. rewrite (zpad_digits w n Hn). f_equal.
+  unfold zpad. fold (pnat (repeat 48 (w - length (show_nat n)) ++ show_nat n)). rewrite pnat_zeros. apply show_nat_pnat. lia.
+Qed.
+
+Theorem readback_date y m d l r : 0 <= y -> 0 <= m -> 0 <= d ->
+  parse_date (strip (spaces l ++ date_str y m d ++ spaces r)) = Some (y, m, d).
+Proof.
+  intros Hy Hm Hd.
+  assert (Hn : allc numc (date_str y m d) = true).
+  { unfold date_str. rewrite !allc_app, show_nat_numc, !zpad_numc by lia. reflexivity. }
+  rewrite strip_padded by (apply numc_allnosp; exact Hn).
+  unfold parse_date, date_str. cbn [app].
+  rewrite split_on_app by (apply digits_nodash, show_nat_digits; lia).
+  rewrite split_on_app by (apply digits_nodash, zpad_digits; lia).
+  rewrite split_on_nochar by (apply digits_nodash, zpad_digits; lia).
+  rewrite parse_nat_show, !parse_nat_zpad by lia. reflexivity.
+Qed.
